@@ -1404,11 +1404,11 @@ def run_check(ck, preds):
                        'networks with more than %d nodes (size axis, up to n = 300) are judged by the exact Python oracles only; the Lean model replay and the q correspondence run for n <= %d' % (LARGE_N, LARGE_N),
                        'in-domain calls that hit the watchdog are re-tried once with 10x the budget, then counted; more than max(3, 0.5% of the cases) is a break']
     # T-gen: modularity matrix and q of modularity_und/_dir interpreted, whole bodies of the Louvain routines source-pinned (translate/cores.py, family modq)
-    ck.cov['cores'] = cores.generate(families=['modq'])
+    ck.cov['cores'] = cores.generate(families=['modq', 'pinmod'])
     for p_ in ck.cov['cores']['problems']:
         ck.corr_break('core extractor (translate/cores.py)', p_)
     ok = ck.lean_gate(['BctVerif.Props.' + pid], extra_modules=['BctVerif.Model.Modularity'])
-    ck.lean_gate([], gen_modules=['BctVerif.Gen.CoresMod'])
+    ck.lean_gate([], gen_modules=['BctVerif.Gen.CoresMod', 'BctVerif.Gen.CoresPinMod'])
     if ck.tier == 'thorough' and ok:
         ck.leanchecker(['BctVerif.Props.' + pid, 'BctVerif.Model.Modularity'])
     if ck.replay:
